@@ -375,6 +375,23 @@ def c11(chk):
                 t = rng.uniform(cur.bps[0], cur.bps[-1])
                 k = rng.randrange(0, cur.nc)
                 lines.append(f'{rid} Q pp_eval {s} {hx(t)} {k}'); plan.append(('probe', s, (t, k, copy.deepcopy(cur)))); rid += 1
+    # long runs of updates without any evaluation in between (a cache-validity stamp that is a small counter wraps around):
+    # evaluate, update 256 / 512 / 65536+ times, evaluate; and construct, update 255 times, evaluate for the first time
+    for fo, d in ((-1, 2), (4, 1)):
+        for runlen, first_eval in ((256, True), (512, True), (255, False), (257, True)) + (((65536, True),) if chk.thorough() else ()):
+            slot = d * 1000 + 700 + (runlen % 97)
+            pp = rand_pp(rng, d, fo, 2, 3)
+            lines.append(init_line(rid, slot, 1, pp)); plan.append(('init', slot, None)); rid += 1
+            if first_eval:
+                t = rng.uniform(pp.bps[0], pp.bps[-1])
+                lines.append(f'{rid} Q pp_eval {slot} {hx(t)} 1'); plan.append(('probe', slot, (t, 1, copy.deepcopy(pp)))); rid += 1
+            for u in range(runlen):
+                pp = rand_pp(rng, d, fo, 2, 3) if u % 64 == 0 or u == runlen - 1 else PP(d, fo, [x + 0.25 for x in pp.bps], pp.rows, pp.nc)
+                lines.append(init_line(rid, slot, 0, pp)); plan.append(('init', slot, None)); rid += 1
+            chk.count(f'run of {runlen} updates without evaluation')
+            for _ in range(2):
+                t = rng.uniform(pp.bps[0], pp.bps[-1]); k = rng.randrange(0, pp.nc)
+                lines.append(f'{rid} Q pp_eval {slot} {hx(t)} {k}'); plan.append(('probe', slot, (t, k, copy.deepcopy(pp)))); rid += 1
     cpp, _ = runner.run_harness(harness(), lines)
     mod = runner.run_model(lines)
     chk.evaluations += len(lines)
@@ -538,6 +555,14 @@ def c20(chk):
                 span = pp.bps[-1] - pp.bps[0]
                 dt = rng.choice([0.01, 0.05, 0.37, 0.5, 1.3, 5.0, span / 3.3, span / 2.2, span / 5.7])
                 lines.append(f'{rid} F pp_len {slot} {hx(a)} {hx(b)} {hx(dt)}'); plan.append(('len', (pp, slot, a, b, dt))); rid += 1
+            # batch evaluation over the generated sequence = pointwise evaluation, at orders below, at and above the number of
+            # coefficients (the derivative is then identically zero)
+            for _ in range(3 if not chk.thorough() else 10):
+                a = rng.uniform(pp.bps[0], pp.bps[-1]); b = rng.uniform(a, pp.bps[-1])
+                span = max(b - a, 1e-3)
+                ts = py_time_sequence(a, b, span / rng.choice([3.3, 7.0, 16.5]))[:40]
+                for k in (0, 1, pp.nc - 1, pp.nc, pp.nc + 2):
+                    lines.append(f'{rid} F pp_batch {slot} {k} {len(ts)} {hxs(ts)}'); plan.append(('batch', (pp, ts, k))); rid += 1
             # factories
             zs = d * 1000 + 800 + (0 if fo < 0 else fo)
             nb = rng.choice([0, 1, 2, 5])
@@ -553,6 +578,12 @@ def c20(chk):
             for t in ([bps[0] - 1, bps[0], (bps[0] + bps[-1]) / 2, bps[-1] + 2] if nb >= 2 else []):
                 for k in (0, 1, 2):
                     lines.append(f'{rid} F pp_eval {cs} {hx(t)} {k}'); plan.append(('consteval', (d, fo, bps, cv, k))); rid += 1
+            if nb >= 2:
+                tsf = [bps[0] - 1, bps[0], (bps[0] + bps[-1]) / 2, bps[-1], bps[-1] + 2] * 4
+                for k in (0, 1, 3):
+                    lines.append(f'{rid} F pp_batch {cs} {k} {len(tsf)} {hxs(tsf)}'); plan.append(('constbatch', (d, cv, tsf, k))); rid += 1
+                    if fo < 0 or ncz <= fo:
+                        lines.append(f'{rid} F pp_batch {zs} {k} {len(tsf)} {hxs(tsf)}'); plan.append(('constbatch', (d, [0.0] * d, tsf, k))); rid += 1
     cpp, _ = runner.run_harness(harness(), lines)
     mod = runner.run_model(lines)
     chk.evaluations += len(lines)
@@ -599,6 +630,26 @@ def c20(chk):
             if got != want:
                 chk.violation(f'{kind} factory is not initialised on the given breakpoints', {'breakpoints': bps, 'nc': nc, 'fixed_order': fo},
                               {'got': got, 'want': want})
+        elif kind == 'batch':
+            pp, ts, k = info
+            chk.cell('batch', pp.d, pp.fo, 'k>=nc' if k >= pp.nc else 'k<nc')
+            va = [parse_val(t) for t in a['v']]
+            for idx, t in enumerate(ts):
+                sgi = pp.seg_of(t)
+                ex = pp.exact(sgi, Fr(t - pp.bps[sgi]), k) if 0 <= k < pp.nc else [Fr(0)] * pp.d
+                sc = pp.cond(sgi, Fr(t - pp.bps[sgi]), k) if 0 <= k < pp.nc else Fr(1)
+                row = va[idx * pp.d:(idx + 1) * pp.d]
+                if any(isinstance(x, float) for x in row) or any(abs(Fr(x) - e) > 1e-12 * (pp.nc + 1) * sc for x, e in zip(row, ex)):
+                    chk.violation('batch evaluation over the generated time sequence is not the pointwise value of that derivative',
+                                  {'dim': pp.d, 'segments': pp.nseg, 'num_coeffs': pp.nc, 'k': k, 't': t}, {'got': [float(x) for x in row], 'exact': [float(e) for e in ex]})
+                    break
+        elif kind == 'constbatch':
+            d, cv, tsf, k = info
+            v = [float(parse_val(t)) for t in a['v']]
+            want = (list(cv) if k == 0 else [0.0] * d) * len(tsf)
+            if v != want:
+                chk.violation('batch evaluation of a factory trajectory is not the constant / zero at every sample', {'k': k, 'constant': cv},
+                              {'first_values': v[:2 * d]})
         elif kind in ('zeroeval', 'consteval'):
             v = [float(parse_val(t)) for t in a['v']]
             if kind == 'zeroeval':
